@@ -23,8 +23,9 @@ Run(e) ==
      /\ IF e.must_fail /\ r.outcome = "value"
         THEN Mismatch(l, "fault-false-success", <<e.entry, e.fault.k>>, "fail", <<e.base, e.fault>>) ELSE TRUE
      \* failed extraction / decompression leaves no allocation behind
-     /\ IF e.leakcheck /\ r.outcome = "fail" /\ r.residual # 0
-        THEN Mismatch(l, "fault-leak", <<e.entry>>, 0, <<e.base, e.fault, r.residual>>) ELSE TRUE
+     \* (4 KiB of slack: the residual is read from malloc's own accounting, which moves by a few hundred bytes)
+     /\ IF e.leakcheck /\ r.outcome = "fail" /\ r.residual > 4096
+        THEN Mismatch(l, "fault-leak", <<e.entry, e.base>>, 0, <<e.base, e.fault, r.residual>>) ELSE TRUE
 
 Init == l = 1
 Next ==
